@@ -1,7 +1,7 @@
 (* C14: unchecked indexing and memory-mapped writes always stay inside their buffers. *)
 From Coq Require Import NArith ZArith List Lia Arith.
 From KT Require Import Gen.Generated Gen.Alphabet Gen.FactsBase Gen.FactTableKmer Gen.UnsafeInv Gen.UnsafeFacts Model.Kmer Model.Show Model.Ops Model.Rows.
-From KT Require Import Model.Pipeline Proof.KmerProof Proof.RevComp Proof.PosMap Proof.Oligo Proof.Batch Proof.RowsProof Proof.LayoutProof.
+From KT Require Import Model.Pipeline Proof.KmerProof Proof.RevComp Proof.PosMap Proof.Oligo Proof.Batch Proof.RowsProof Proof.LayoutProof Proof.MappedBytes.
 Import ListNotations.
 Open Scope N_scope.
 
@@ -82,6 +82,27 @@ Proof.
   unfold Pipeline.row_len, Batch.row_len, Batch.kcount. rewrite E. cbn [length]. lia.
 Qed.
 
+(* at the level of bytes (Proof/MappedBytes.v: a file is a list of bytes, write_at overwrites a range, set_len keeps
+   the bytes below the new length and fills with zeros): the copies of the header and of every record's row to
+   offset |header| + n * row length - made in ANY order, each any number of times, as long as each is made - leave
+   exactly header ++ rows in the file: no byte outside a row is touched, none is left unwritten, and the result
+   does not depend on the bytes the file held before *)
+Theorem C14_mapped_file_is_header_and_rows_for_any_write_order :
+  forall k hdr delim recs ws old, (1 <= k <= 31)%nat -> Forall (Forall (fun b => 4 <= b < 256)) recs ->
+  Forall (fun s => (Z.of_nat (S (length s)) < 2 ^ 53)%Z) recs ->
+  (forall w, In w ws <-> In w (layout hdr (Pipeline.row_len k (length delim)) (map (oligo_row_bytes k true delim) recs))) ->
+  apply_writes ws (set_len (length hdr + Pipeline.row_len k (length delim) * length recs)%nat old)
+  = hdr ++ concat (map (oligo_row_bytes k true delim) recs).
+Proof.
+  intros k hdr delim recs ws old Hk Hb Hl Hw.
+  rewrite <- (map_length (oligo_row_bytes k true delim) recs).
+  apply mapped_file_any_order_any_previous_content.
+  - apply Forall_forall. intros r Hr. apply in_map_iff in Hr as [s [<- Hs]].
+    apply C14_every_row_has_the_reserved_length; [exact Hk|exact (proj1 (Forall_forall _ _) Hb s Hs)|exact (proj1 (Forall_forall _ _) Hl s Hs)].
+  - intros w H. apply Hw. exact H.
+  - intros w H. apply Hw. exact H.
+Qed.
+
 (* the unsafe constructs found in the workspace's sources are exactly the inventoried ones: each is hooked
    (indexing, write_at) or modelled (C13); a new unchecked access without a hook breaks this obligation, and the
    property is then no longer shown for that site *)
@@ -102,4 +123,5 @@ Print Assumptions C14_original_size_only_for_one_byte_delimiters.
 Print Assumptions C14_number_width.
 Print Assumptions C14_every_row_has_the_reserved_length.
 Print Assumptions C14_reserved_length_is_the_layout_row_length.
+Print Assumptions C14_mapped_file_is_header_and_rows_for_any_write_order.
 Print Assumptions C14_no_uninventoried_unsafe_site.
